@@ -231,14 +231,7 @@ def summarize(plan, res):
 
 
 # ------------------------------------------------------------------ second scenario class: values through the efun surface
-EFUN_BLACKLIST = set('''call_other clone_object new bind destruct call_out input_to get_char move_object add_action command remove_action disable_commands
-enable_commands set_living_name notify_fail restore_object save_object write tell_object shout receive message say tell_room load_object
-write_file rename write_bytes write_buffer cp link mkdir rm rmdir exec set_heart_beat set_hide set_reset snoop throw printf enable_wizard disable_wizard
-reload_object error flush_messages ed dumpallobj reclaim_objects set_eval_limit reset_eval_cost eval_cost max_eval_cost shutdown store_variable
-remove_interactive debug_message dump_prog moncontrol seteuid export_uid resolve tail remove_call_out find_object this_object evaluate in_edit
-socket_create socket_bind socket_listen socket_accept socket_connect socket_write socket_close socket_release socket_acquire socket_error socket_address dump_socket_status
-set_light set_privs set_author set_debug_level debug_info trace traceprefix dump_file_descriptors malloc_status mud_status memory_summary memory_info rusage cache_stats
-query_load_average function_profile check_memory swap set_malloc_mask query_host_name uptime time ctime localtime random origin call_stack'''.split())
+EFUN_BLACKLIST = set('''call_other clone_object new bind destruct call_out input_to get_char move_object add_action command remove_action disable_commands enable_commands set_living_name notify_fail restore_object save_object write tell_object shout receive message say tell_room load_object write_file rename write_bytes write_buffer cp link mkdir rm rmdir exec set_heart_beat set_reset snoop throw printf enable_wizard disable_wizard reload_object error flush_messages ed dumpallobj set_eval_limit reset_eval_cost eval_cost max_eval_cost shutdown remove_interactive debug_message dump_prog moncontrol seteuid export_uid resolve tail find_object this_object socket_create socket_bind socket_listen socket_accept socket_connect socket_write socket_close socket_release socket_acquire socket_error socket_address dump_socket_status set_privs set_author trace traceprefix memory_summary rusage function_profile check_memory swap set_malloc_mask query_host_name uptime time ctime localtime random'''.split())
 
 
 def _parse_spec(path='/repo/lib/efuns/func_spec.c'):
